@@ -717,7 +717,189 @@ def _branches(vals: List[ast.AST]) -> List[ast.AST]:
 _NATIVE_BUILTINS = {"str": str, "int": int, "float": float, "bool": bool, "list": list, "tuple": tuple, "dict": dict, "NoneType": type(None)}
 
 
-def serialize_encoders(repo: Repo, R: Report, rule: str) -> None:
+# whole-content: what is hashed / compared is a rendering of the whole value ---------------------------------
+_SUMMARISERS = {"len": "its length", "id": "its address", "hash": "its (per-process salted) hash", "type": "its type"}
+_ABBREVIATORS = {"reprlib.repr", "reprlib.Repr.repr", "textwrap.shorten", "pprint.saferepr"}
+_PRECISION_PCT = re.compile(r"%[-#0 +]*\d*\.\d+[a-zA-Z]")
+_PRECISION_BRACE = re.compile(r"\{[^{}]*:[^{}]*\.\d+[^{}]*\}")
+
+
+def _reads(fn: ast.AST, e: Optional[ast.AST], p: str) -> bool:
+    """*e* is computed from the local / parameter *p* of *fn* (through any chain of assignments)."""
+    return e is not None and any(isinstance(x, ast.Name) and x.id == p for y in closure(fn, e) for x in ast.walk(y))
+
+
+def _qualified(mod, call: ast.Call) -> str:
+    """Dotted name of the called function with the head resolved through the imports of *mod*."""
+    d = call_name(call) or ""
+    head, _, rest = d.partition(".")
+    target = mod.imports.get(head) if head else None
+    return (target + ("." + rest if rest else "")) if target else d
+
+
+def _repo_callees(repo: Repo, mod, fn: ast.AST, call: ast.Call) -> List[Tuple[object, ast.AST]]:
+    """Plain functions of the repo that *call* (found in *fn*) invokes; nothing for a name bound locally."""
+    f = call.func
+    if isinstance(f, ast.Name) and (f.id in all_params(fn) or f.id in _def_table(fn)[1]):
+        return []
+    try:
+        targets = repo.resolve_call(mod, call)
+    except Exception:
+        targets = []
+    if not targets and not any(isinstance(a, ast.Module) for a in ancestors(call)):
+        # a detached copy (locals expanded): module-level defs and imports of *mod*
+        d = dotted_name(f)
+        if d and isinstance(mod.defs.get(d), ast.FunctionDef):
+            targets = [(mod, mod.defs[d])]
+        elif d and mod.imports.get(d.split(".")[0]):
+            r = repo.resolve_dotted(".".join([mod.imports[d.split(".")[0]]] + d.split(".")[1:]))
+            targets = [r] if r is not None else []
+    return [(m, t) for m, t in targets if isinstance(t, (ast.FunctionDef, ast.AsyncFunctionDef))]
+
+
+def _plain_form(repo: Repo, m, f: ast.AST) -> ast.AST:
+    try:
+        return normalize(repo, m, f, inline=False, copyprop="", ifexp=False)
+    except AnalysisError:
+        raise
+    except Exception:
+        return f
+
+
+def _failed_rendering_path(n: ast.AST, p: str) -> bool:
+    """*n* sits in the handler of a `try` whose body renders *p* with repr(): the path of an object that cannot be
+    rendered at all (its `__repr__` raised).  Placeholders on that path are not judged."""
+    for a in ancestors(n):
+        if isinstance(a, ast.ExceptHandler):
+            t = parent(a)
+            if isinstance(t, ast.Try) and any(isinstance(c, ast.Call) and isinstance(c.func, ast.Name) and c.func.id == "repr" and c.args and dotted_name(c.args[0]) == p for st in t.body for c in ast.walk(st)):
+                return True
+    return False
+
+
+def _chunk_of_walk(n: ast.Subscript) -> bool:
+    """`X[i:i + N]` inside `for i in range(0, len(X), N)`: one chunk of a walk over the whole of X, not a cut."""
+    sl = n.slice
+    if not (isinstance(sl, ast.Slice) and sl.step is None and isinstance(sl.lower, ast.Name) and isinstance(sl.upper, ast.BinOp) and isinstance(sl.upper.op, ast.Add)):
+        return False
+    i, X = sl.lower.id, ast.unparse(n.value)
+    sides = [sl.upper.left, sl.upper.right]
+    step = [x for x in sides if not (isinstance(x, ast.Name) and x.id == i)]
+    if len(step) != 1:
+        return False
+    for a in ancestors(n):
+        if isinstance(a, ast.For) and isinstance(a.target, ast.Name) and a.target.id == i and isinstance(a.iter, ast.Call) and call_name(a.iter) == "range" and len(a.iter.args) == 3 and not a.iter.keywords:
+            lo, hi, st = a.iter.args
+            stored = [x for b in a.body for x in ast.walk(b) if isinstance(x, ast.Name) and isinstance(x.ctx, ast.Store) and x.id in (i, X)]
+            return is_const(lo, 0) and ast.unparse(hi) == f"len({X})" and ast.unparse(st) == ast.unparse(step[0]) and not stored and not any(isinstance(x, (ast.Break, ast.Return)) for b in a.body for x in ast.walk(b))
+    return False
+
+
+def content_loss(repo: Repo, mod, fn: ast.AST, e: Optional[ast.AST], p: str, depth: int = 0, seen: Optional[Set[int]] = None) -> Optional[Tuple[str, str, str, int]]:
+    """(what, file, function, line) of the first construct on the way from *p* (a parameter / local of *fn*) to the
+    expression *e* that lets go of a part of the value: a positional cut of a rendering of the value, a renderer that
+    abbreviates, a precision in a format, or a summary (len / id / hash / type) standing in for the value.  Calls of repo
+    functions that receive the value are followed into their returns.  None when nothing of the kind is on the way."""
+    if e is None or depth > 3:
+        return None
+    seen = seen if seen is not None else set()
+    rel, qn = mod.rel, qualname_of(getattr(fn, "_normal_of", fn))
+    exprs = closure(fn, e)
+    if not any(isinstance(x, ast.Name) and x.id == p for y in exprs for x in ast.walk(y)):
+        return None
+    for y in exprs:
+        for n in ast.walk(y):
+            line = getattr(n, "lineno", getattr(fn, "lineno", 0))
+            if isinstance(n, ast.Subscript) and isinstance(n.slice, ast.Slice) and isinstance(n.ctx, ast.Load) and not (n.slice.lower is None and n.slice.upper is None and n.slice.step is None) and not _chunk_of_walk(n) and _reads(fn, n.value, p):
+                return (f"`{txt(n)[:60]}` keeps a positional part of a rendering of the value and drops the rest", rel, qn, line)
+            if isinstance(n, ast.FormattedValue) and n.format_spec is not None and _reads(fn, n.value, p) and any(isinstance(c, ast.Constant) and isinstance(c.value, str) and re.search(r"\.\d+", c.value) for c in ast.walk(n.format_spec)):
+                return (f"the format `{txt(n)[:60]}` renders the value with a precision (cut to a fixed number of characters / digits)", rel, qn, line)
+            if isinstance(n, ast.BinOp) and isinstance(n.op, ast.Mod) and isinstance(n.left, ast.Constant) and isinstance(n.left.value, (str, bytes)) and _reads(fn, n.right, p):
+                spec = n.left.value if isinstance(n.left.value, str) else n.left.value.decode("latin-1")
+                if _PRECISION_PCT.search(spec):
+                    return (f"the format `{txt(n)[:60]}` renders the value with a precision (cut to a fixed number of characters / digits)", rel, qn, line)
+            if not isinstance(n, ast.Call):
+                continue
+            args = [a.value if isinstance(a, ast.Starred) else a for a in n.args] + [k.value for k in n.keywords]
+            if isinstance(n.func, ast.Attribute) and n.func.attr == "format" and isinstance(n.func.value, ast.Constant) and isinstance(n.func.value.value, str) and _PRECISION_BRACE.search(n.func.value.value) and any(_reads(fn, a, p) for a in args):
+                return (f"the format `{txt(n)[:60]}` renders the value with a precision (cut to a fixed number of characters / digits)", rel, qn, line)
+            if not any(_reads(fn, a, p) for a in args):
+                continue
+            if _qualified(mod, n) in _ABBREVIATORS:
+                return (f"`{txt(n)[:60]}` is a renderer that abbreviates long values (elides everything beyond a size limit)", rel, qn, line)
+            for m2, t in _repo_callees(repo, mod, fn, n):
+                if id(t) in seen:
+                    continue
+                seen.add(id(t))
+                f2 = _plain_form(repo, m2, t)
+                for q, a in bind_args(n, f2).items():
+                    if not _reads(fn, a, p):
+                        continue
+                    for r in [r for r in walk_no_nested(f2) if isinstance(r, ast.Return) and r.value is not None]:
+                        inner = content_loss(repo, m2, f2, r.value, q, depth + 1, seen)
+                        if inner is not None:
+                            return (f"`{txt(n)[:50]}`: {inner[0]}", inner[1], inner[2], inner[3])
+    # a summary standing in for the value: every read of the value on the way is the operand of len / id / hash / type
+    plain = 0
+    summaries: List[Tuple[str, ast.AST]] = []
+
+    def visit(x: ast.AST) -> None:
+        nonlocal plain
+        if isinstance(x, ast.Call) and isinstance(x.func, ast.Name) and x.func.id in _SUMMARISERS and len(x.args) == 1 and not x.keywords and dotted_name(x.args[0]) == p:
+            summaries.append((x.func.id, x))
+            return
+        if isinstance(x, ast.Name) and x.id == p and isinstance(x.ctx, ast.Load):
+            plain += 1
+        for c in ast.iter_child_nodes(x):
+            visit(c)
+
+    for y in exprs:
+        if not _failed_rendering_path(y, p):
+            visit(y)
+    if summaries and not plain:
+        kind, node = summaries[0]
+        return (f"`{txt(node)}` stands in for the value: only {_SUMMARISERS[kind]} reaches the bytes, values that differ in content are not told apart" + (" and equal contents are" if kind in ("id", "hash") else ""), rel, qn, getattr(node, "lineno", getattr(fn, "lineno", 0)))
+    return None
+
+
+def _repr_like(repo: Repo, mod, fn: ast.AST, e: Optional[ast.AST], p: str, depth: int = 0) -> bool:
+    """*e* is the full repr() text of *p*: `repr(p)` itself, or a repo function of *p* whose every return is one
+    (placeholders on the path where repr() itself raised aside)."""
+    if e is None or depth > 3:
+        return False
+    if isinstance(e, ast.Call) and isinstance(e.func, ast.Name) and e.func.id == "repr" and len(e.args) == 1 and not e.keywords and dotted_name(e.args[0]) == p and not _repo_callees(repo, mod, fn, e) and "repr" not in mod.imports:
+        return True
+    if not isinstance(e, ast.Call):
+        return False
+    targets = _repo_callees(repo, mod, fn, e)
+    if len(targets) != 1:
+        return False
+    m2, t = targets[0]
+    f2 = _plain_form(repo, m2, t)
+    qs = [q for q, a in bind_args(e, f2).items() if dotted_name(a) == p]
+    if len(qs) != 1:
+        return False
+    q = qs[0]
+    rets = [r for r in walk_no_nested(f2) if isinstance(r, ast.Return)]
+    n_full = 0
+    for r in rets:
+        if r.value is None:
+            return False
+        if isinstance(r.value, ast.Name) and r.value.id in _def_table(f2)[1]:
+            if not every_of(f2, r.value):  # also bound by something that is not a plain assignment
+                return False
+            cands = [(s, s) for s in _def_table(f2)[1][r.value.id]]  # (where it is bound, what is bound)
+        else:
+            cands = [(r, r.value)]
+        for site, v in cands:
+            if _repr_like(repo, m2, f2, expand(f2, v), q, depth + 1):
+                n_full += 1
+            elif not (_failed_rendering_path(site, q) and isinstance(v, (ast.Constant, ast.JoinedStr))):
+                return False
+    return n_full > 0
+
+
+def serialize_encoders(repo: Repo, R: Report, rule: str, rule_whole: Optional[str] = None) -> None:
     """Every way `serialize` (and the helpers whose result it returns) turns a value into bytes.
 
     `_stable_equal` decides `updated_keys` by comparing these bytes and the data digests hash them, so two different
@@ -728,14 +910,14 @@ def serialize_encoders(repo: Repo, R: Report, rule: str) -> None:
     the value itself as text, makes a text value collide with the value whose JSON spelling it is."""
     mod = repo.module(UTILS)
     start = repo.func(UTILS, "serialize")
-    chain: List[ast.AST] = []
-    todo: List[ast.AST] = [start]
+    chain: List[Tuple[ast.AST, bool]] = []
+    todo: List[Tuple[ast.AST, bool]] = [(start, False)]  # (function, reached only from inside an exception handler)
     n_prod = 0
     while todo:
-        raw = todo.pop(0)
-        if any(raw is c for c in chain):
+        raw, inherited = todo.pop(0)
+        if any(raw is c and (inherited or not h) for c, h in chain):
             continue
-        chain.append(raw)
+        chain.append((raw, inherited))
         try:
             fn = normalize(repo, mod, raw, inline=False, copyprop="", ifexp=False)
         except AnalysisError:
@@ -760,14 +942,31 @@ def serialize_encoders(repo: Repo, R: Report, rule: str) -> None:
                         native |= names & _JSON_NATIVE
                     if names and names <= _BUFFER_TYPES:
                         buffers.add(txt(c.args[0]))
-            handler = any(isinstance(a, ast.ExceptHandler) for a in ancestors(r))
-            for v in _branches([x for x in (every_of(fn, expand(fn, r.value)) or [expand(fn, r.value)])]):
+            handler = inherited or any(isinstance(a, ast.ExceptHandler) for a in ancestors(r))
+            where = norm(r)[:100]
+            produced = _branches([x for x in (every_of(fn, expand(fn, r.value)) or [expand(fn, r.value)])])
+            if rule_whole is not None:
+                # helpers whose result is returned as it is are links of the chain: looked at in their own turn, not from here
+                links = {id(mod.defs[v.func.id]) for v in produced if isinstance(v, ast.Call) and isinstance(v.func, ast.Name) and isinstance(mod.defs.get(v.func.id), ast.FunctionDef) and v.func.id not in all_params(fn)}
+                loss = content_loss(repo, mod, fn, r.value, p, seen=links)
+                if loss is None:
+                    for c in [c for c in ast.walk(r.value) if isinstance(c, ast.Call) and call_name(c) == "json.dumps" and kwarg(c, "default") is not None]:
+                        # the function json.dumps() hands every non-JSON object to: what it returns is what gets encoded
+                        for m2, t in _repo_callees(repo, mod, fn, ast.Call(func=kwarg(c, "default"), args=[], keywords=[])):
+                            f2 = _plain_form(repo, m2, t)
+                            q = (pos_params(f2) or [None])[0]
+                            for r2 in [x for x in walk_no_nested(f2) if isinstance(x, ast.Return) and x.value is not None]:
+                                loss = loss or (content_loss(repo, m2, f2, r2.value, q) if q else None)
+                if loss is not None:
+                    n_prod += 1
+                    R.violation(rule_whole, loss[1], loss[2], where, f"{loss[0]}: the bytes that are hashed into the digests (and compared to decide updated_keys) are not a rendering of the whole value, so contents that differ only in the dropped part share a digest and a rewrite of that part is reported as unchanged", loss[3])
+                    continue
+                R.ok(rule_whole, UTILS, qn, where, "the bytes are computed from the whole value (no cut, abbreviation, precision or summary on the way)", r.lineno)
+            for v in produced:
                 n_prod += 1
-                where = norm(r)[:100]
                 if isinstance(v, ast.Call) and (call_name(v) or "").split(".")[-1] == "canonical_json_bytes" and qn != "canonical_json_bytes":
                     R.ok(rule, UTILS, qn, where, "canonical JSON", r.lineno)
-                    if not any(t.name == "canonical_json_bytes" for t in chain + todo):
-                        todo.append(repo.func(UTILS, "canonical_json_bytes"))
+                    todo.append((repo.func(UTILS, "canonical_json_bytes"), handler))
                     continue
                 if not native and any(isinstance(c, ast.Call) and call_name(c) == "json.dumps" and c.args and dotted_name(c.args[0]) == p for c in ast.walk(v)):
                     R.ok(rule, UTILS, qn, where, "the JSON text of the value (quotes text, spells numbers / null / containers unquoted)", r.lineno)
@@ -776,7 +975,7 @@ def serialize_encoders(repo: Repo, R: Report, rule: str) -> None:
                     local_def = mod.defs.get(v.func.id)
                     targets = [local_def] if isinstance(local_def, ast.FunctionDef) and v.func.id not in all_params(fn) else []
                     if len(targets) == 1:
-                        todo.append(targets[0])
+                        todo.append((targets[0], handler))
                         R.ok(rule, UTILS, qn, where, f"delegates to {targets[0].name}", r.lineno)
                         continue
                 if not native and isinstance(v, ast.Call) and call_name(v) == "bytes" and len(v.args) == 1 and not v.keywords and txt(v.args[0]) in buffers:
@@ -803,6 +1002,8 @@ def serialize_encoders(repo: Repo, R: Report, rule: str) -> None:
                     R.ok(rule, UTILS, qn, where, "the bytes-like object's own bytes", r.lineno)
                     continue
                 text = _renders_as_text(v, p)
+                if text is None and any(isinstance(c, ast.Call) and _repr_like(repo, mod, fn, c, p) for c in ast.walk(v)):
+                    text = "repr() through a helper that returns the full text"
                 if handler and not native and text is not None and text.startswith("repr("):
                     R.ok(rule, UTILS, qn, where, "repr last resort inside an exception handler", r.lineno)
                     continue
@@ -1258,6 +1459,25 @@ class Roles:
                 return None
             found.append(r)
         return found[0] if found and all(c[1] is found[0][1] for c in found) else None
+
+
+def hash_functions(repo: Repo, A: "Roles") -> List[Tuple[object, ast.AST]]:
+    """The repo functions that turn serialised bytes into the value stored under 'sha256' by the two summary producers
+    (found by role: the call whose argument is the serialisation of the summarised parameter)."""
+    out: List[Tuple[object, ast.AST]] = []
+    for role in ("data_summary", "context_summary"):
+        if not A.has(role):
+            continue
+        f = A.nf(role)
+        for v in _stores_key(f, "sha256"):
+            for x in closure(f, v):
+                for c in [c for c in ast.walk(x) if isinstance(c, ast.Call) and len(c.args) == 1 and isinstance(c.args[0], ast.Call)]:
+                    inner = (call_name(c.args[0]) or "").split(".")[-1]
+                    if inner in ("serialize", "canonical_json_bytes"):
+                        t = A.callee(A.mod(role), c, f)
+                        if t is not None and isinstance(t[1], ast.FunctionDef) and not any(t[1] is g for _m, g in out):
+                            out.append(t)
+    return out
 
 
 def run(repo: Repo, R: Report) -> None:
@@ -1829,7 +2049,19 @@ def run(repo: Repo, R: Report) -> None:
     ok = bool(dumps) and isinstance(kwarg(dumps[0], "sort_keys"), ast.Constant) and kwarg(dumps[0], "sort_keys").value is True
     R.check(ok, r_dig, UTILS, "canonical_json_bytes", "json.dumps(..., sort_keys=True)", "canonical JSON depends on mapping order: equal content gives different digests", cj.lineno)
     r_enc = R.rule("C07-D5-one-encoding", "serialize() (whose bytes are hashed into the data digests and compared by _stable_equal to decide updated_keys) gives different values different bytes: values of JSON-native types (str, numbers, bool, None, list, dict) are encoded by canonical_json_bytes only; the other producers are the own bytes of a bytes-like object and the repr last resort inside an exception handler", 4)
-    serialize_encoders(repo, R, r_enc)
+    r_whole = R.rule("C07-D5-whole-content", "the bytes that are hashed into the data / context digests and compared by _stable_equal are a rendering of the whole value: on the way from the value to the bytes (through serialize(), the helpers it returns from, the renderers they call and the json `default` hook) nothing cuts a rendering by position, abbreviates it, formats it with a precision or lets a summary (len / id / hash / type) stand in for it; the hash function consumes all of those bytes", 5)
+    serialize_encoders(repo, R, r_enc, r_whole)
+    # the hash itself: everything fed to the hash object is the whole bytes argument
+    for role_fn in {id(f): (m, f) for m, f in hash_functions(repo, A)}.values():
+        hm, hraw = role_fn
+        hf = _plain_form(repo, hm, hraw)
+        hp = (pos_params(hf) or [None])[0]
+        fed = [a for c in calls_in(hf) for a in c.args if hp and ((call_attr(c) == "update") or (_qualified(hm, c).startswith("hashlib."))) and _reads(hf, a, hp)]
+        loss = next((l for l in (content_loss(repo, hm, hf, a, hp) for a in fed) if l is not None), None)
+        if loss is not None:
+            R.violation(r_whole, loss[1], loss[2], norm(hf)[:80], f"{loss[0]}: the digest is computed from a part of the serialised bytes only, so contents that differ elsewhere share a digest", loss[3])
+        else:
+            R.check(bool(fed) and any(dotted_name(expand(hf, a)) == hp or (isinstance(a, ast.Subscript) and dotted_name(a.value) == hp and _chunk_of_walk(a)) for a in fed), r_whole, hm.rel, qualname_of(hraw), "the hash object is fed the whole bytes argument", "the bytes argument itself never reaches the hash object: the digest is not a function of the serialised content", hf.lineno)
     summ_fns = {}
     summ_roles: Dict[str, Dict[str, Optional[str]]] = {}  # helper -> producer -> the parameter it summarises
     for helper, keys in (("init_summaries", {"input_data": "data_summary", "pre_context": "context_summary"}), ("augment_summaries", {"output_data": "data_summary", "post_context": "context_summary"})):
